@@ -1,0 +1,68 @@
+//! Verification hooks (compiled only with `--cfg bigdecimal_verif`)
+//!
+//! Seams for an external deterministic simulator: the two floating
+//! point intrinsics whose precision Rust documents as non-deterministic
+//! (`f64::exp2` in the inverse guess, `f64::powi` in `to_f64`) and a
+//! step callback at the top of the otherwise unbounded Newton loop of
+//! the inverse.
+//!
+//! Every hook is thread-local and unset by default; with no hook
+//! installed each function here is the identity / a no-op, so the
+//! behaviour of the crate is unchanged.
+
+use std::boxed::Box;
+use std::cell::RefCell;
+
+/// Call site of a floating point intrinsic
+#[derive(Clone, Copy, Debug, PartialEq, Eq)]
+pub enum FloatSite {
+    /// `exp2(-bits)` in `arithmetic::inverse::make_inv_guess`
+    InvGuessExp2,
+    /// `powi(10.0, pow)` in `BigDecimalRef::to_f64`
+    ToF64Powi,
+}
+
+/// Call site of a loop-step notification
+#[derive(Clone, Copy, Debug, PartialEq, Eq)]
+pub enum StepSite {
+    /// top of the `while prev_result != result` body in `impl_inverse_uint_scale`
+    InverseLoop,
+}
+
+/// (site, argument, real result) -> result to use
+pub type FloatHook = Box<dyn FnMut(FloatSite, f64, f64) -> f64>;
+
+/// (site, scale of the iterate, bit length of the iterate)
+pub type StepHook = Box<dyn FnMut(StepSite, i64, u64)>;
+
+thread_local! {
+    static FLOAT_HOOK: RefCell<Option<FloatHook>> = RefCell::new(None);
+    static STEP_HOOK: RefCell<Option<StepHook>> = RefCell::new(None);
+}
+
+/// Install (or with `None` remove) this thread's float hook, returning the previous one
+pub fn set_float_hook(hook: Option<FloatHook>) -> Option<FloatHook> {
+    FLOAT_HOOK.with(|h| std::mem::replace(&mut *h.borrow_mut(), hook))
+}
+
+/// Install (or with `None` remove) this thread's step hook, returning the previous one
+pub fn set_step_hook(hook: Option<StepHook>) -> Option<StepHook> {
+    STEP_HOOK.with(|h| std::mem::replace(&mut *h.borrow_mut(), hook))
+}
+
+#[inline]
+pub(crate) fn float(site: FloatSite, arg: f64, real: f64) -> f64 {
+    FLOAT_HOOK.with(|h| match *h.borrow_mut() {
+        Some(ref mut f) => f(site, arg, real),
+        None => real,
+    })
+}
+
+#[inline]
+pub(crate) fn step(site: StepSite, scale: i64, bits: u64) {
+    STEP_HOOK.with(|h| {
+        if let Some(ref mut f) = *h.borrow_mut() {
+            f(site, scale, bits)
+        }
+    })
+}
